@@ -229,6 +229,25 @@ int main() {
       else if (variant == "move") { BuildValue m(std::move(v)); data = m.toData(); }
       else if (variant == "assign") { BuildValue m = BuildValue::makeInvalid(); m = std::move(v); data = m.toData(); }
       out << hex(StringRef((const char*)data.data(), data.size()));
+    } else if (op == "valover") {
+      // valover <kind> <sig> <n> <info>*n <strings>  <kind> <sig> <n> <info>*n <strings>
+      // move-ASSIGN the second value over an object that already holds the first one
+      size_t p = 1;
+      auto take = [&]() {
+        int kind = atoi(t[p].c_str());
+        uint64_t sig = strtoull(t[p + 1].c_str(), nullptr, 10);
+        int n = atoi(t[p + 2].c_str());
+        std::vector<FileInfo> infos;
+        for (int i = 0; i < n; ++i) infos.push_back(parseInfo(t[p + 3 + i]));
+        auto strs = hexlist(t[p + 3 + n]);
+        p += 4 + n;
+        return makeValue(kind, sig, infos, strs);
+      };
+      BuildValue holder = take();
+      BuildValue v = take();
+      holder = std::move(v);
+      core::ValueType data = holder.toData();
+      out << hex(StringRef((const char*)data.data(), data.size()));
     } else if (op == "valdec") {
       std::string b = unhex(t[1]);
       core::ValueType data(b.begin(), b.end());
